@@ -51,16 +51,18 @@ def _free_consts(e):
     return out
 
 
-def concretize_search(hyp, goal, seed=0, tries=6, timeout_s=4.0):
+def concretize_search(hyp, goal, seed=0, tries=3, timeout_s=3.0):
     """Greedy random assignment of the free scalar constants (consistent with `hyp`), arrays as constant arrays,
     then a cheap satisfiability check of hyp & ~goal.  Returns a z3 model-like dict or None."""
     rng = random.Random(seed)
     f = z3.And(hyp, z3.Not(goal))
     consts = _free_consts(f)
+    from .sym import _abstract_array_predicates
+    hyp_abs = _abstract_array_predicates([hyp])[0]  # over-approximation, only used to pick candidate values
     for attempt in range(tries):
         s = z3.Solver()
         s.set("timeout", int(timeout_s * 1000))
-        s.add(hyp)
+        s.add(hyp_abs)
         if s.check() != z3.sat:
             return None
         sub = []
@@ -77,8 +79,7 @@ def concretize_search(hyp, goal, seed=0, tries=6, timeout_s=4.0):
             elif srt == z3.BoolSort():
                 cand = z3.BoolVal(rng.random() < 0.5)
             elif srt == ARR:
-                sub.append((c, z3.K(z3.IntSort(), z3.simplify(z3.RealVal(rng.choice([-3, -2, -1, 1, 2, 3, 5])) / z3.RealVal(rng.choice([1, 2, 4]))))))
-                continue
+                continue  # arrays: pseudo-random functions of the index (numeval)
             else:
                 continue
             s.push()
@@ -93,14 +94,33 @@ def concretize_search(hyp, goal, seed=0, tries=6, timeout_s=4.0):
                 v = m.eval(c, model_completion=True)
                 s.add(c == v)
                 sub.append((c, v))
-        g = z3.simplify(z3.substitute(f, *sub))
-        s2 = z3.Solver()
-        s2.set("timeout", int(timeout_s * 1000))
-        s2.add(g)
-        if s2.check() == z3.sat:
-            m2 = s2.model()
-            return dict(sub=sub, model=m2)
+        # evaluate under a concrete pseudo-random interpretation (genuine model; see numeval.py)
+        from .numeval import numeric_refute
+        from .sym import model_value
+        env = {}
+        for c, v in sub:
+            if c.sort().kind() == z3.Z3_ARRAY_SORT:
+                continue
+            env[str(c)] = model_value(None, v) if False else _pyval(v)
+        ev = numeric_refute(hyp, goal, env, seeds=range(attempt * 16, attempt * 16 + 16))
+        if ev is not None:
+            return dict(sub=sub, ev=ev)
     return None
+
+
+def _pyval(v):
+    v = z3.simplify(v)
+    if z3.is_true(v):
+        return True
+    if z3.is_false(v):
+        return False
+    if z3.is_int_value(v):
+        return v.as_long()
+    if z3.is_rational_value(v):
+        return float(v.as_fraction())
+    if z3.is_algebraic_value(v):
+        return float(v.approx(20).as_fraction())
+    raise ValueError(str(v))
 
 
 VIOLATION_BUDGET = {"left": 4}
@@ -129,7 +149,8 @@ def discharge(hyp, goal, timeout_s=10.0, model_vars=None, use_cvc5=True, seed=0)
     else:
         res["status"] = "unknown"
         res["reason"] = s.reason_unknown()
-        if use_cvc5:
+        cm = concretize_search(hyp, goal, seed=seed)
+        if cm is None and use_cvc5:
             try:
                 smt2 = s.to_smt2().replace("(set-info :status unknown)", "")
                 c = _cvc5(smt2, timeout_s)
@@ -139,15 +160,18 @@ def discharge(hyp, goal, timeout_s=10.0, model_vars=None, use_cvc5=True, seed=0)
                 res["status"] = "discharged"
                 res["backend"] = "cvc5-1.0.3 (z3 unknown)"
         if res["status"] == "unknown":
-            cm = concretize_search(hyp, goal, seed=seed)
             if cm is not None:
                 res["status"] = "violated"
-                res["backend"] = "z3 (randomized concretization)"
+                res["backend"] = "numeric refutation (z3 unknown)"
                 if model_vars:
                     vals = {}
                     for k, v in model_vars.items():
                         t = v.t if hasattr(v, "t") else v
-                        vals[k] = model_value(cm["model"], z3.simplify(z3.substitute(t, *cm["sub"])))
+                        try:
+                            x = cm["ev"].ev(t)
+                            vals[k] = x if not callable(x) else "<array>"
+                        except Exception as e:  # pragma: no cover
+                            vals[k] = None
                     res["model"] = vals
                 else:
                     res["model"] = {str(c): str(v) for c, v in cm["sub"][:40]}
